@@ -3,6 +3,7 @@
 -/
 import GeonumModel.Lemmas.AngleNewTotal
 import GeonumModel.Spec.RealWitness
+import GeonumModel.Lemmas.Exact
 
 set_option linter.unusedSectionVars false
 set_option linter.unusedVariables false
@@ -89,9 +90,52 @@ theorem geonum_ctors (m p d x y : F) (k : ℕ) (a : Angle F) :
     (Geonum.newFromCartesian x y).mag = sqrt (fadd (fmul x x) (fmul y y)) := ⟨rfl, rfl, rfl, rfl, rfl⟩
 end G
 
-/-! PARTIAL (not yet proved): negative totals (direction modulo 2π, fewer than two turns) beyond the table above; the Cartesian
-    round trip `mag·cos ga = x`, `mag·sin ga = y` (E-tier via `Complex.arg`); the ulp bound relating `(p·π)/d` in floats to the
-    real `pπ/d`.  Explored by `oracle.C02.new` (exact rational `⌊2p/d⌋` from the argument bit patterns) and `oracle.C02.other`. -/
+/-! ### E-tier: exact arithmetic — what the constructors denote -/
+section E
+open GeonumModel.Exact
+
+/-- (E) **`Angle::new(p, d)` denotes `p·π/d`**: for every real `p`, `d` (any sign, fast path or general path) with
+    `|p·π/d| ≤ 2^42`, the result is canonical and its total is `p·π/d` up to whole turns and a snap slack below `1e-10` -/
+theorem new_denotes_real {p d : ℝ} (hb : |p * Real.pi / d| ≤ 2 ^ 42) :
+    (Angle.new p d).Inv ∧
+    ∃ (δ : ℝ) (m : ℤ), |δ| < 1 / 10 ^ 10 ∧ T (Angle.new p d) = p * Real.pi / d + δ + (m : ℝ) * (2 * Real.pi) :=
+  new_total_real hb
+
+/-- (E) an explicit blade offset adds exactly that many quarter turns to the total -/
+theorem newWithBlade_total_real {p d : ℝ} (k : ℕ) (hk : k < 2 ^ 53) (hb : |p * Real.pi / d| ≤ 2 ^ 42) :
+    T (Angle.newWithBlade k p d) = T (Angle.new p d) + (k : ℝ) * (Real.pi / 2) := by
+  unfold Angle.newWithBlade
+  simp only [Angle.add, addVV]
+  rw [new_nat k hk, add_whole_total_real (new_total_real hb).1 (show (⟨zero, k⟩ : Angle ℝ).rem = 0 from lit_real.1)]
+  unfold T; simp only; rw [lit_real.1]; ring
+
+/-- (E) **the Cartesian constructor reproduces the direction of `(x, y)`**: its total is `arg(x + iy)` up to whole turns and the
+    snap slack, and its magnitude is the Euclidean norm -/
+theorem newFromCartesian_real (x y : ℝ) :
+    (Geonum.newFromCartesian x y).mag = Real.sqrt (x * x + y * y) ∧
+    ∃ (δ : ℝ) (m : ℤ), |δ| < 1 / 10 ^ 10 ∧
+      T (Geonum.newFromCartesian x y).angle = Complex.arg ⟨x, y⟩ + δ + (m : ℝ) * (2 * Real.pi) := by
+  refine ⟨rfl, ?_⟩
+  have hpi := Real.pi_pos
+  have harg : |Complex.arg ⟨x, y⟩| ≤ Real.pi := Complex.abs_arg_le_pi _
+  have hq : Complex.arg ⟨x, y⟩ / Real.pi * Real.pi / 1 = Complex.arg ⟨x, y⟩ := by field_simp
+  have hb : |Complex.arg ⟨x, y⟩ / Real.pi * Real.pi / 1| ≤ 2 ^ 42 := by
+    rw [hq]
+    have : Real.pi ≤ 2 ^ 42 := by have := Real.pi_lt_four; norm_num; linarith
+    linarith
+  obtain ⟨_, δ, m, hδ, hT⟩ := new_total_real (p := Complex.arg ⟨x, y⟩ / Real.pi) (d := 1) hb
+  refine ⟨δ, m, hδ, ?_⟩
+  have hdef : (Geonum.newFromCartesian x y).angle = Angle.new (Complex.arg ⟨x, y⟩ / Real.pi) 1 := by
+    show Angle.newFromCartesian x y = _
+    unfold Angle.newFromCartesian
+    rw [lit_real.2.1]; rfl
+  rw [hdef, hT, hq]
+
+end E
+
+/-! PARTIAL (not yet proved): `⌊2p/d⌋` form of the blade for `p/d ≥ 0` in exact arithmetic as a separate corollary, "fewer than
+    two turns" for negative arguments, and the ulp bound relating `(p·π)/d` in floats to the real `pπ/d`.  Explored by
+    `oracle.C02.new` (exact rational `⌊2p/d⌋` from the argument bit patterns) and `oracle.C02.other`. -/
 
 example {F : Type} [FloatSpec F] : (Angle.new (zero : F) one).Inv :=
   Angle.Equiv.inv (Angle.Equiv.symm new_zero_one) (inv_zero 0)
